@@ -716,12 +716,12 @@ theorem stepTok_inv (dia : Dialect) (aw : Bool) (c : Nat) (r : Str) (line col : 
       · rw [if_neg hd] at h5
         obtain ⟨h5, e⟩ := L.pure_ok_inv h5; subst h5; subst e
         exact ⟨hfirst.trans h6, h7⟩
-    · rw [if_neg hcol] at h
+    · rw [if_neg hcol, Nat.add_sub_cancel] at h
       obtain ⟨s, l1, hs1, h5⟩ := L.bind_ok_inv h
-      obtain ⟨h6, h7⟩ := scanUnquoted_inv dia _ _ _ _ _ _ _ _ _ _ _ _ hcr' hs1
+      obtain ⟨h6, h7⟩ := scanUnquoted_inv dia _ _ _ _ _ _ _ _ _ _ _ _ hcr hs1
       obtain ⟨h8, h9⟩ := finishUnquoted_inv h5
       rw [h8]
-      exact ⟨(hfirst.trans h6).trans (Inv_log_congr h9 ..).symm, h7⟩
+      exact ⟨h6.trans (Inv_log_congr h9 ..).symm, h7⟩
   · rw [if_neg hs, Nat.add_sub_cancel] at h
     obtain ⟨s, l1, hs1, h5⟩ := L.bind_ok_inv h
     obtain ⟨h6, h7⟩ := scanUnquoted_inv dia _ _ _ _ _ _ _ _ _ _ _ _ hcr hs1
